@@ -17,6 +17,8 @@ CLAIMS = {
             "7 C02", "function contracts + per-step lemmas + inductive budget lemma (Verus)"),
     "C13": ("Verus proves mint requires sender == stored minter and supply+amount <= cap, update_minter requires the current minter and copies the cap, every other handler leaves minter/cap alone, instantiate establishes supply <= cap; history lemma: None is absorbing, cap constant while a minter exists, supply <= cap always.",
             "7 C13", "function contracts + cap invariant + history lemma (Verus)"),
+    "C04": ("Verus proves on the real packages/cw3 code that votes_needed(w,p) == ceil(floor(1e9*w*p/1e18)/1e9) with the u64 cast in range and no overflow (strict shim), that is_passed/is_rejected equal spec functions written from the cw3 threshold rules for every valid threshold and tally <= total, and lemmas: exact for <=9 decimals, within one vote and never stricter for 18, monotone, p/(1-p) complement, never both passed and rejected, early Passed/Rejected sound for every completion, Passed needs yes > 0.",
+            "7 C04", "function contracts against spec functions + nonlinear arithmetic lemmas (Verus)"),
 }
 
 NOT_YET = "machinery for this property is not built yet in this round (see DESIGN.md section 11 build order); not claimed until its unit verifies on the unchanged tree"
